@@ -17,6 +17,12 @@ CHECKS = {
  "C07": dict(level="model_checking", sec="3/C07", technique="exhaustive enumeration of small IL programs x initial states; lock-step explicit-state product of executor::Driver and a reference IL interpreter, loops closed by state dedup",
    text="Every function on <=2 blocks x every filling with <=2 (thorough 3) of 21 operations x shapes incl. single conditional edges, non-exhaustive and three-way guards x endianness x initial valuations x memory pre-fill; location, scalars and memory compared after every step, error classes must correspond, on-demand lifting followed. Larger programs/other operand values are not covered.",
    note="Trusted: refil reference semantics (harness). End of a terminal block = ExecutorNoValidLocation accepted as termination."),
+ "C09": dict(level="model_checking", sec="3/C09", technique="exhaustive enumeration of all CFGs on <=3 blocks x entry x exit x block sizes x a family of finite-lattice analyses; oracle = Kleene iteration cross-checked by brute-force search for the least solution",
+   text="All 2^(n*n) edge sets for n<=3 with every entry/exit and block sizes, four analyses (three monotone, one non-monotone) under rotations of the transfer assignment, forward/backward, force, step budgets; the returned map must have exactly the reachable locations and equal the least solution, or be an error when non-monotone / out of budget. Larger CFGs and other lattices are not covered.",
+   note="Trusted: harness location graph and Kleene/brute-force oracles (the brute-force search validates that Kleene computes the least solution on every graph with <=6 locations)."),
+ "C18": dict(level="model_checking", sec="3/C18", technique="exhaustive enumeration of all functions on <=3 blocks x sizes x address patterns; complete traversal of the location graph against a definitional one",
+   text="Every function on <=3 blocks (all edge sets, all entries, block sizes 0/1/2 and index gaps, three address patterns, two program placements); every location: forward/backward converse and equal to the definition, locations() exact, forward closure from the entry exact, owned/borrowed round trip on program and clone, migrate, from_address for every address. Larger functions are not covered.",
+   note="Trusted: definitional location graph built by the harness from blocks()/edges()."),
 }
 NA = []
 def main():
